@@ -24,7 +24,7 @@ RULE = ("cases = (dyadic start position, decimal places 6|9, direction, list "
         "(quarter-turn multiples incl. full turn), arc_radius, circle, spline, "
         "helix, thread, spiral, polyline, a user-supplied parametric curve that "
         "does not start at the current position; all coordinates multiples of 1/8 "
-        "with |v|<=1024 so that o+(t-o) is exact; resolutions from {1/2,1,2,"
+        "with |v|<=1024 so that o+(t-o) is exact; resolutions k*(1+2^-9), k in {1/2,1,2,"
         "4}); non-trivial = path with >=1 tracer shape and >=2 ops; distinct "
         "by SHA-1")
 ASSUMPTIONS = [
@@ -52,7 +52,10 @@ def op_strategy(depth=2):
     off = dy(-12, 12)
     nzo = off.filter(lambda v: abs(v) >= 1)
     pt = st.fixed_dictionaries({}, optional={"x": w, "y": w, "z": dy(-10, 10)})
-    res = st.sampled_from([0.5, 1.0, 2.0, 4.0])
+    # dyadic, but not "nice": with length/resolution an exact integer (straight
+    # splines have rational lengths) the sample count sits on a tie that
+    # floating-point noise decides, which is not a mode difference
+    res = st.sampled_from([0.5009765625, 1.001953125, 2.00390625, 4.0078125])
     dz = st.one_of(st.none(), dy(-6, 6))
     prim = st.one_of(
         st.fixed_dictionaries({"op": st.sampled_from(["move", "rapid"]), "to": pt}),
@@ -280,7 +283,7 @@ def strategy():
 
 
 def run_shard(ctx):
-    n = 70 if ctx.tier == "quick" else 1200
+    n = 70 if ctx.tier == "quick" else 3000
 
     def body(case):
         cl, nv = run_case(case, set())
